@@ -1,0 +1,37 @@
+//go:build verif
+
+// Contracts for gocv (see /verif/DESIGN.md). Comment-only file: takes no part in any build.
+
+package consensus
+
+// ---- assumed contracts on collaborators (trusted, reported in evidence) --------------------------
+//@ pure func (*github.com/33cn/chain33/types.Transaction).GetTxGroup
+//@ pure func (*github.com/33cn/chain33/types.Transaction).Hash
+//@ pure func github.com/33cn/chain33/types.CheckTxBlockedAccount
+//@ pure func github.com/33cn/chain33/types.CheckTxsBlockedAccount
+//@ pure func github.com/33cn/chain33/types.AssertConfig
+//@ pure func github.com/33cn/chain33/common.ToHex
+//@ pure func (github.com/33cn/chain33/queue.Client).GetConfig
+//@ pure func (*github.com/33cn/chain33/types.Chain33Config).GetP
+//@ trusted func (*github.com/33cn/chain33/types.Transaction).Size
+//@   frame nothing
+//@   ensures result >= 0
+//@ trusted func (*github.com/33cn/chain33/types.Block).Size
+//@   frame nothing
+//@   ensures result >= 0
+
+// ---- C30: produced blocks respect count and size limits, skip blacklisted accounts ---------------
+// max = MaxBlockSize - 100000
+//@ func (*BaseClient).AddTxsToBlock [C30,C31]
+//@   opt safety=assumed overflow=assumed
+//@   requires block != nil
+//@   ensures len(block.Txs) <= imax(maxTx, old(len(block.Txs)))
+//@   ensures len(block.Txs) == old(len(block.Txs)) + len(result)
+//@   loop 0 invariant 0 <= i && i <= len(txs)
+//@   loop 0 invariant currentCount == len(block.Txs)
+//@   loop 0 invariant currentCount <= imax(maxTx, old(len(block.Txs)))
+//@   loop 0 invariant size <= max || len(block.Txs) == old(len(block.Txs))
+//@   loop 0 invariant len(block.Txs) == old(len(block.Txs)) + len(addedTx)
+//@   loop 0 decreases len(txs) - i
+//@   assert@call builtin.append#1: ret(CheckTxBlockedAccount) == nil && currentCount <= maxTx && size <= max
+//@   assert@call builtin.append#3: ret(CheckTxsBlockedAccount) == nil && currentCount <= maxTx && size <= max
